@@ -28,8 +28,10 @@ RULE = ("cases are dataclass modules rendered from the layout grammar: per class
         "either quote style][blank lines], with an optional explicit help= (simple_parsing.field(help=) or "
         "metadata=dict(help=)); every text is a distinct marker 'mkNNNq …'. Streams: exhaustive subsets of the five "
         "documentation positions for one field and for two prefix-related fields (a, ab), random multi-field classes with "
-        "permuted prefix-related names, inheritance chains of length 2-3 that override / re-declare fields, and separate "
-        "streams for the recorded findings. Each module is checked by three ops: the real get_attribute_docstring, the "
+        "permuted prefix-related names, trailing comments on the class line / decorator line, inheritance chains of length "
+        "2-3 that override / re-declare fields or document an inherited field only in the subclass docstring, default values that are "
+        "string literals containing '#', and synthetic definition lines for the inline-comment extraction. Each module is "
+        "checked by three ops: the real get_attribute_docstring, the "
         "real argparse action help / --help text, and the layout rendering. Non-trivial = at least two fields, or an "
         "inheritance chain, with at least one documentation position filled; distinct by canonical JSON.")
 ASSUMPTIONS = [
@@ -97,8 +99,12 @@ def mk_class(rng, mk, name, base, blocks, cls_fields, *, summary=None, decorator
                   "entries": [[f, mk("cls", f)] for f in cls_fields]}
     if blocks:
         blocks[-1]["gap3"] = 0                       # inspect.getsource drops trailing blank lines
+    # trailing comments on the class line / the decorator line: nobody's documentation
+    hdr_comment = mk("header", name) if rng.random() < 0.2 else None
+    dec_comment = mk("decorator", name) if rng.random() < 0.1 else None
     return {"name": name, "base": base, "decorator": decorator or rng.choice(DECORATORS), "clsdoc": clsdoc,
-            "hdr_gap": rng.choice([0, 0, 1]) if hdr_gap is None else hdr_gap, "hdr_comment": None, "blocks": blocks}
+            "hdr_gap": rng.choice([0, 0, 1]) if hdr_gap is None else hdr_gap, "hdr_comment": hdr_comment,
+            "dec_comment": dec_comment, "blocks": blocks}
 
 
 def subsets_case(rng, names, subsets, rich=False):
@@ -143,6 +149,8 @@ def chain_case(rng):
         subs = [rand_positions(rng) for _ in names]
         blocks = [mk_block(rng, mk, n, s - {"cls"}) for n, s in zip(names, subs)]
         cls_fields = [n for n, s in zip(names, subs) if "cls" in s]
+        # a subclass may document an inherited field it does not re-declare in its class docstring
+        cls_fields += [n for n in have if n not in names and rng.random() < 0.25]
         classes.append(mk_class(rng, mk, f"C{d}", f"C{d-1}" if d else None, blocks, cls_fields,
                                 summary=rng.random() < 0.3))
         have += [n for n in names if n not in have]
@@ -150,32 +158,35 @@ def chain_case(rng):
             if rng.random() < 0.2 else f"C{depth-1}"}
 
 
-def quirk_hash_default(rng):
+def hash_default_case(rng):
+    """(repaired finding) a '#' inside a string literal of the default value is not a comment"""
     mk = Mk()
-    b0 = mk_block(rng, mk, "color", rng.choice([set(), {"above"}, {"below"}]))
-    b0["ann"], b0["default"], b0["inline"] = "str", rng.choice(['"#ff0000"', "'#abc'", '"a # b"']), None
+    b0 = mk_block(rng, mk, "color", rng.choice([set(), set(), {"above"}, {"below"}, {"inline"}, {"inline", "help"}]))
+    b0["ann"], b0["default"] = "str", rng.choice(['"#ff0000"', "'#abc'", '"a # b"', '"x" + "#y"', "'#' * 3"])
     b1 = mk_block(rng, mk, "ab", rand_positions(rng) - {"cls"})
     blocks = [b0, b1] if rng.random() < 0.5 else [b1, b0]
-    return {"stream": "quirk:hashdefault", "classes": [mk_class(rng, mk, "C0", None, blocks, [])], "target": "C0"}
+    return {"stream": "layout", "classes": [mk_class(rng, mk, "C0", None, blocks, [])], "target": "C0"}
 
 
-def quirk_clsdoc_inherited(rng):
+def clsdoc_inherited_case(rng):
+    """(repaired finding) the subclass documents an inherited, not re-declared field in its class docstring"""
     mk = Mk()
-    b0 = mk_block(rng, mk, "a", rng.choice([set(), {"inline"}, {"cls"}]) - {"cls"})
+    b0 = mk_block(rng, mk, "a", rng.choice([set(), {"inline"}, {"above"}, {"below"}]))
     b1 = mk_block(rng, mk, "ab", rand_positions(rng) - {"cls"})
     c0 = mk_class(rng, mk, "C0", None, [b0, b1], rng.choice([[], ["a"]]))
     b2 = mk_block(rng, mk, "x", rand_positions(rng) - {"cls"})
-    c1 = mk_class(rng, mk, "C1", "C0", [b2], ["a"])       # documents the inherited, not re-declared field
-    return {"stream": "quirk:clsdoc_inherited", "classes": [c0, c1], "target": "C1"}
+    c1 = mk_class(rng, mk, "C1", "C0", [b2], ["a"])
+    return {"stream": "clsdoc_inherited", "classes": [c0, c1], "target": "C1"}
 
 
-def quirk_header_comment(rng):
+def header_comment_case(rng):
+    """(repaired finding) a trailing comment on the class line, no class docstring"""
     mk = Mk()
     b0 = mk_block(rng, mk, "a", rng.choice([set(), {"above"}, {"inline"}]))
     b1 = mk_block(rng, mk, "ab", rand_positions(rng) - {"cls"})
     c0 = mk_class(rng, mk, "C0", None, [b0, b1], [], summary=False)
-    c0["hdr_comment"] = mk("header", "C0")
-    return {"stream": "quirk:header_comment", "classes": [c0], "target": "C0"}
+    c0["hdr_comment"] = c0["hdr_comment"] or mk("header", "C0")
+    return {"stream": "layout", "classes": [c0], "target": "C0"}
 
 
 LINE_TEMPLATES = ["{n}: int = 0", "    {n}: int", "    {n} : str = 'x'  # c", "{n} = 4", "    # {n}: int", "{{{n}: int}}",
@@ -183,6 +194,39 @@ LINE_TEMPLATES = ["{n}: int = 0", "    {n}: int", "    {n} : str = 'x'  # c", "{
                   "    {n} = d[1:2]", "    def {n}(self) -> int:", "class {n}(Base):", "    {n}: int  #: doc", "    {n} #:= 3",
                   "", "   ", "\t{n}:int=1", "    '''{n}: int'''", "  # only", "    {n}.x: int = 1", "    1{n}: int = 1",
                   "    {n}: 'a:b' = 1", "    return {{k: v}}", " {n} :int", "@dataclass(eq=True)", '    {n}: str = "#ff"']
+
+
+INLINE_TEMPLATES = [
+    "x: int = 0",
+    '    x: str = "#ff0000"',
+    "    x: str = '#abc'",
+    "    x: str = \"a # b\" + 'c#d'",
+    "    x: List[int] = field(default_factory=list)",
+    "    x: str = field(default='#', help=\"h # i\")",
+    '    x: str = ""',
+    "    x: str = ''",
+    "    x: Dict[str, int] = field(default_factory=dict)",
+    "    x: str = 'unterminated # string",
+    "    x: int = foo(1, [2, 3]",
+    "    x: int = (1 + 2) * 3 - 4 / 5",
+    "    x: float = 1.5",
+    "    x: str = \"it's\"",
+    "    x: str = 'say \"hi\" # there'",
+    "    x: int",
+    "    x: Optional[int] = None",
+    '    x: str = """triple # quoted"""',
+    '    x: str = f"{1}#"',
+    "    x: str = 'back\\\\slash#'",
+    "    x: int = 1e5",
+    "    x: int = a @ b",
+    "\tx: int = 3",
+    "    x: Tuple[int, ...] = (1, 2)",
+    "    x: int = {1, 2}",
+    "    x: int = 3)",
+    "    x: str = '#' '#'",
+]
+# templates that are complete, valid statements (the "own comment" clause of the oracle applies to them)
+INLINE_WELLFORMED = {t for t in INLINE_TEMPLATES if not any(k in t for k in ("unterminated", "[2, 3]", "3)"))}
 
 
 def gen(rng, tier):
@@ -197,26 +241,28 @@ def gen(rng, tier):
     all_sub = [set(s) for r in range(6) for s in itertools.combinations(POSITIONS, r)]
     pairs = list(itertools.product(all_sub, all_sub))
     if quick:
-        pairs = rng.sample(pairs, 200)
+        pairs = rng.sample(pairs, 100)
     for s1, s2 in pairs:
         names = rng.choice([["a", "ab"], ["ab", "a"], ["value", "val"], ["a_b", "a"], ["lr", "lr_decay"]])
         specs.append(subsets_case(rng, names, [s1, s2], rich=rng.random() < 0.5))
     # (c) random multi-field classes, (d) inheritance chains
-    for _ in range(300 if quick else 4000):
+    for _ in range(150 if quick else 3000):
         specs.append(random_class_case(rng))
-    for _ in range(300 if quick else 4000):
+    for _ in range(150 if quick else 3000):
         specs.append(chain_case(rng))
+    for _ in range(20 if quick else 300):
+        specs.append(clsdoc_inherited_case(rng))
+        specs.append(header_comment_case(rng))
+        specs.append(hash_default_case(rng))
     for spec in specs:
         yield {"op": "doc.scan", "case": spec}
         yield {"op": "doc.help", "case": spec}
         if spec["stream"] == "layout":
             yield {"op": "doc.layout", "case": spec}
-    # (e) streams of the recorded findings (kept small; they are known to fail)
-    for _ in range(4 if quick else 40):
-        for q in (quirk_hash_default, quirk_clsdoc_inherited, quirk_header_comment):
-            spec = q(rng)
-            yield {"op": "doc.scan", "case": spec}
-            yield {"op": "doc.help", "case": spec}
+    # (e) the inline-comment extraction on synthetic definition lines (strings with '#', brackets, fallbacks)
+    for t in INLINE_TEMPLATES:
+        for cm in ("", "  # mk900q inline x", "#mk901q tight", "  #  mk902q # twice  "):
+            yield {"op": "doc.inline", "case": {"line": t + cm}}
     # (f) the line classifiers on synthetic lines
     for t in LINE_TEMPLATES:
         for n in (["a", "ab"] if quick else NAMES):
@@ -265,7 +311,7 @@ def render_block(b):
 
 
 def render_class(c):
-    out = [c["decorator"]]
+    out = [c["decorator"] + (f'  # {c["dec_comment"]}' if c.get("dec_comment") else "")]
     head = f'class {c["name"]}({c["base"]}):' if c["base"] else f'class {c["name"]}:'
     if c.get("hdr_comment"):
         head += f'  # {c["hdr_comment"]}'
@@ -364,6 +410,15 @@ def _mro_info(cls):
 
 def impl(case):
     op, c = case["op"], case["case"]
+    if op == "doc.inline":
+        from simple_parsing import docstring as D
+
+        if not D._contains_field_definition(c["line"]):
+            return {"notdef": True}
+        try:
+            return {"inline": D._get_inline_comment_at_line([c["line"]], 0)}
+        except Exception as e:  # noqa: BLE001
+            return {"raise": type(e).__name__}
     if op == "doc.line":
         from simple_parsing import docstring as D
 
@@ -426,7 +481,7 @@ def impl(case):
 
 def model_case(case, obs):
     op, c = case["op"], case["case"]
-    if op == "doc.line":
+    if op in ("doc.line", "doc.inline"):
         return c
     if op == "doc.scan":
         return {"mro": obs["mro"], "names": obs["names"]}
@@ -553,12 +608,32 @@ def owner_of(spec):
                 own[m[:6]] = f
         if c.get("hdr_comment"):
             own[c["hdr_comment"][:6]] = None
+        if c.get("dec_comment"):
+            own[c["dec_comment"][:6]] = None
     return own
+
+
+def model_unmodelled(mo):
+    return isinstance(mo, dict) and mo.get("unmodelled") is True
 
 
 def oracle(case, obs):
     op, spec = case["op"], case["case"]
     if op == "doc.line":
+        return []
+    if op == "doc.inline":
+        # the templates carry at most one real comment (always last on the line): its text is the inline comment
+        line = spec["line"]
+        if "raise" in obs:
+            return [{"clause": "extractor-raised", "detail": f"_get_inline_comment_at_line raised {obs['raise']} on {line!r}"}]
+        if "notdef" in obs:
+            return []
+        for t in INLINE_WELLFORMED:
+            if line.startswith(t) and (line == t or line[len(t):].lstrip().startswith("#")):
+                exp = line[len(t):].strip()[1:].strip() if line != t else ""
+                if obs["inline"] != exp:
+                    return [{"clause": "inline-own-comment",
+                             "detail": f"inline comment of {line!r}: got {obs['inline']!r}, it is {exp!r}"}]
         return []
     fails = []
     own = owner_of(spec)
@@ -626,6 +701,8 @@ def n_filled(spec):
 def nontrivial(case, obs):
     if case["op"] == "doc.line":
         return bool(obs["def"])
+    if case["op"] == "doc.inline":
+        return "#" in case["case"]["line"] and "inline" in obs
     spec = case["case"]
     nf = sum(len(c["blocks"]) for c in spec["classes"])
     return (nf >= 2 or len(spec["classes"]) >= 2) and n_filled(spec) >= 1
@@ -636,11 +713,17 @@ def tags(case, obs):
     t = [f"op:{op}"]
     if op == "doc.line":
         return t + [f"def:{obs['def']}", f"defines:{obs['defines']}"]
+    if op == "doc.inline":
+        return t + ["inline:" + ("notdef" if "notdef" in obs else "raise" if "raise" in obs else "text" if obs["inline"] else "empty")]
     spec = case["case"]
     t.append(f"stream:{spec['stream']}")
     t.append(f"classes:{len(spec['classes'])}")
     t.append(f"fields:{min(6, sum(len(c['blocks']) for c in spec['classes']))}")
     for c in spec["classes"]:
+        if c.get("hdr_comment") or c.get("dec_comment"):
+            t.append("header-comment")
+        if c["clsdoc"] and any(f not in [b["name"] for b in c["blocks"]] for f, _ in c["clsdoc"]["entries"]):
+            t.append("clsdoc-entry-for-inherited-field")
         t.append("decorator:" + ("args" if "(" in c["decorator"] and not c["decorator"].endswith("()") else "plain"))
         if c["clsdoc"]:
             t.append("clsdoc:" + c["clsdoc"]["q"])
@@ -664,7 +747,7 @@ def tags(case, obs):
 
 def shrink(case):
     spec = case["case"]
-    if case["op"] == "doc.line":
+    if case["op"] in ("doc.line", "doc.inline"):
         return
     op = case["op"]
 
@@ -693,12 +776,15 @@ def shrink(case):
                 yield emit(dict(spec, classes=cls[:ci] + [dict(c, blocks=nb)] + cls[ci + 1:]))
         if c["clsdoc"]:
             yield emit(dict(spec, classes=cls[:ci] + [dict(c, clsdoc=None)] + cls[ci + 1:]))
+        for key in ("hdr_comment", "dec_comment"):
+            if c.get(key):
+                yield emit(dict(spec, classes=cls[:ci] + [dict(c, **{key: None})] + cls[ci + 1:]))
         if c["decorator"] != "@dataclass":
             yield emit(dict(spec, classes=cls[:ci] + [dict(c, decorator="@dataclass")] + cls[ci + 1:]))
 
 
 def neighbours(case, rng):
-    if case["op"] == "doc.line":
+    if case["op"] in ("doc.line", "doc.inline"):
         return
     for op in ("doc.scan", "doc.help"):
         yield {"op": op, "case": case["case"]}
@@ -707,86 +793,26 @@ def neighbours(case, rng):
 
 
 # ------------------------------------------------------------------------------------------------
-# open findings: narrow signatures (stream + the field and position concerned + the observed wrong text)
+# open findings: none (the three findings this check recorded are repaired; their replays are regression corpus)
 
-
-def _hash_default_sig(case, obs, fail):
-    spec = case.get("case", {})
-    if not isinstance(spec, dict) or "classes" not in spec:
-        return False
-    eff = effective_blocks(spec)
-    b = eff.get(fail.get("field"))
-    if not b or "#" not in b["default"] or b["inline"] is not None or b.get("help"):
-        return False
-    if fail.get("clause") not in ("no-invented-text", "precedence") or fail.get("kind") not in ("inline", "help"):
-        return False
-    leftover = b["default"].split("#", 1)[1].strip()
-    return fail.get("got") == [leftover]
-
-
-def _clsdoc_inherited_sig(case, obs, fail):
-    spec = case.get("case", {})
-    if not isinstance(spec, dict) or "classes" not in spec:
-        return False
-    f = fail.get("field")
-    if fail.get("clause") not in ("nearest-provider", "precedence") or fail.get("kind") not in ("cls", "help"):
-        return False
-    # the documented text comes from the class docstring of a class that does not itself declare the field ...
-    ch = chain_of(spec)
-    prov = next((c for c in ch if provided(c, f, "cls")), None)
-    if prov is None or any(b["name"] == f for b in prov["blocks"]):
-        return False
-    if fail.get("exp") != provided(prov, f, "cls"):
-        return False
-    # ... and what was observed is what the declaring classes alone provide
-    decl = [c for c in ch if any(b["name"] == f for b in c["blocks"])]
-    if fail["kind"] == "cls":
-        alt = next((provided(c, f, "cls") for c in decl if provided(c, f, "cls")), [])
-    else:
-        alt = []
-        for k in KINDS:
-            alt = next((provided(c, f, k) for c in decl if provided(c, f, k)), [])
-            if alt:
-                break
-    return fail.get("got") == alt
-
-
-def _header_comment_sig(case, obs, fail):
-    spec = case.get("case", {})
-    if not isinstance(spec, dict) or "classes" not in spec:
-        return False
-    if fail.get("clause") != "no-leak" or fail.get("kind") not in ("above", "help"):
-        return False
-    for c in spec["classes"]:
-        hc = c.get("hdr_comment")
-        if hc and c["blocks"] and c["blocks"][0]["name"] == fail.get("field") and not c["clsdoc"]:
-            b = c["blocks"][0]
-            return fail.get("foreign") == [hc[:6]] and fail.get("got") == [hc] + list(b["above"])
-    return False
-
-
-FINDINGS = {
-    "C19-hash-in-default": _hash_default_sig,
-    "C19-clsdoc-inherited": _clsdoc_inherited_sig,
-    "C19-header-comment": _header_comment_sig,
-}
+FINDINGS = {}
 
 MANIFEST = {
-    "text": ("Proof on the layout grammar (full there; three recorded findings outside it). Lean theorems over a line-scanner "
+    "text": ("Proof on the layout grammar (full there; no open finding). Lean theorems over a line-scanner "
              "model of docstring.py: for every source made of header lines and well-formed field blocks (comment lines, "
              "blank lines, definition, inline comment, one-line or multi-line docstring in either quote style), the scan for "
              "a field returns exactly the texts of that field's own block, whatever the other blocks contain and for names "
-             "that are prefixes of each other; a block without documentation yields no text; MRO accumulation takes each kind "
-             "from the nearest class that has it; help= > docstring below > comment above > inline comment > class "
+             "that are prefixes of each other; a block without documentation yields no text; a comment on the class / decorator line "
+             "reaches no field; MRO accumulation takes each kind from the nearest class that has it, the class-docstring entry "
+             "also from subclasses that only document an inherited field; help= > docstring below > comment above > inline comment > class "
              "docstring entry. The model is tied to the code by four correspondence ops on generated real modules "
              "(get_attribute_docstring, argparse action help, the line classifiers, the layout rendering versus "
              "inspect.getsource), and the property's own statement is evaluated on every real observation including the "
              "--help text."),
     "note": ("Trusted: Lean kernel + standard axioms; inspect.getsource, docstring_parser, dataclasses (observed and passed to "
              "the model as parameters); the harness. Modelled not verified: docstring.py:34-386, field_wrapper.py:888-905 on "
-             "ASCII sources. Open findings: '#' inside a default value is read as an inline comment; a class-docstring entry "
-             "for an inherited field that the subclass does not re-declare is ignored; a comment on the `class` line "
-             "becomes the first field's comment."),
+             "ASCII sources. The tokenizer-based inline-comment extraction is modelled as 'first # outside a string literal' on "
+             "one-line string literals without escapes; other definition lines are answered `unmodelled` and counted."),
     "technique": "Lean 4 induction over source-line blocks + differential correspondence on generated modules",
     "design_ref": "DESIGN.md section 5, C19",
 }
